@@ -562,6 +562,15 @@ def project_field(t, name):
                 return o
     if t[0] == "variant":
         inner, v = t[1], t[2]
+        if inner[0] == "join":
+            # members built as a different variant cannot be downcast to v
+            ms = [m for m in inner[1] if not (m[0] == "agg" and m[2] != v)]
+            if ms:
+                return mkjoin([project_field(("variant", m, v), name) for m in ms])
+        if inner[0] == "agg" and inner[2] == v:
+            for f, o in inner[3]:
+                if f == name:
+                    return o
         if name == "0":
             if inner[0] == "poll" and v == "Ready":
                 return ("await", inner[1])
